@@ -269,6 +269,7 @@ func runHistory(work string, m *mdl, hs []hop) histOutcome {
 		i               int
 	}
 	steps := []mstep{{req: "reset", want: "ok", what: "reset"}}
+	holdsReq := func(i int) { steps = append(steps, mstep{"holds05", "true", "c05_holds_on", i}) }
 	ask := func(i int, what, req, want string) { steps = append(steps, mstep{req, want, what, i}) }
 	viol := func(i int, oracle, detail string) {
 		if out.impl == nil {
@@ -303,7 +304,16 @@ func runHistory(work string, m *mdl, hs []hop) histOutcome {
 			if !ok {
 				tm = 1
 			}
+			if strings.HasPrefix(impl, "PUTOK") {
+				// the boolean form of put_get, on the model state before the Put
+				var ch []string
+				for _, x := range chunk32k(d, len(d)-1) {
+					ch = append(ch, m.ref(x))
+				}
+				ask(i, "c05_put_holds_on", fmt.Sprintf("putholds05 %s %d %s", idhex, tm, strings.Join(ch, " ")), "true")
+			}
 			ask(i, h.Kind, m.honestPutReq(id, tm, d), impl)
+			holdsReq(i)
 			out.tags["op:put"]++
 			if strings.HasPrefix(impl, "PUTOK") {
 				// direct oracle: Put then GetBytes returns the data; GetFile names a file holding it
@@ -471,6 +481,7 @@ func runHistory(work string, m *mdl, hs []hop) histOutcome {
 	}
 	sort.Strings(items)
 	if len(hs) > 0 {
+		holdsReq(len(hs) - 1)
 		ask(len(hs)-1, "final-listing", "list", strings.Join(append([]string{"L"}, items...), " "))
 	}
 	// ---- the model, in one batch (re-asked from "reset" when it needed a hash value)
@@ -878,6 +889,13 @@ func runC05(f *common.Flags, res *common.Result, m *mdl) {
 			m.define(fmt.Sprintf("c%d", i), cn)
 		}
 		m.hash(cn)
+	}
+	{
+		var hx []string
+		for i := range ids {
+			hx = append(hx, hex.EncodeToString(ids[i][:]))
+		}
+		m.ask("ids " + strings.Join(hx, " "))
 	}
 	if f.Replay != "" {
 		rp, err := common.LoadReplay(f.Replay)
